@@ -53,6 +53,9 @@ func (c *Ctx) Distinct() int { return c.res.DistinctNontrivial }
 // Count increments a named counter.
 func (c *Ctx) Count(name string) { c.res.Counters[name]++ }
 
+// AddCount adds n to a named counter.
+func (c *Ctx) AddCount(name string, n int) { c.res.Counters[name] += n }
+
 // Sample records an input sample (only the first few are kept).
 func (c *Ctx) Sample(v interface{}) {
 	if len(c.res.InputSamples) < 4 {
